@@ -100,7 +100,10 @@ func (c *Client) handleList() error {
 		case *ListCommand:
 			return true // TODO: match pattern, check if already handled
 		case *SelectCommand:
-			return cmd.mailbox == data.Mailbox && cmd.data.List == nil
+			// The LIST response names the selected mailbox, or has it as
+			// OLDNAME if the mailbox was renamed (RFC 9051 section 6.3.2)
+			return cmd.data.List == nil &&
+				(sameMailbox(cmd.mailbox, data.Mailbox) || (data.OldName != "" && sameMailbox(cmd.mailbox, data.OldName)))
 		default:
 			return false
 		}
